@@ -2,19 +2,22 @@
 //
 // Programs: for T in {i8,i16,i32,i64,i128} x F in {float,double,long double}
 //   ctor<T,F>   cnl::fraction<T>(x)            (the floating-point constructor)
-//   make<T,F>   cnl::make_fraction<T>(x)       (the function the constructor delegates to)
+//   make<T,F>   cnl::make_fraction<T>(x)       (the function the constructor delegates to; quick lattice in both tiers)
 //   ctad<F>     cnl::fraction(x)               (deduction guides: float->i32, double->i64, long double->i128)
+// VF_PART 0..3 split them by T (UBSan-trap builds, release and CNL_DEBUG); VF_PART 4 is a three-program subset
+// built without any sanitizer (plain release build: undefined behaviour is not intercepted, hangs show as hangs).
 // State = (program, x).  Inputs (see inputs<T,F>()): the float lattice (every binary exponent from
 // 2^-(D+8) up to 2^D, D = digits(T), x the top M mantissa bits, both signs), the same lattice at
-// M-4 bits moved one ulp of F up and down (full-precision mantissas), F(k) for k in B0(T) and
-// k +- 1/2, 1/4, dyadic k/2^j, decimal k/10^j (k < 1000, j <= 6) and small ratios p/q computed by
-// division in F, values adjacent to max(T) and to small integers, +-0, tiny values and denormals.
+// Mu bits moved one ulp of F up and down (full-precision mantissas), F(k) for k in B0(T) and
+// k +- 1/8, 1/4, 1/2, 3/4, dyadic k/2^j, decimal k/10^j (k < 1000, j <= 6) and small ratios p/q computed by
+// division in F, values adjacent to max(T) and to 1/2, 1, 2, +-0, tiny values and denormals.
 // Precondition (exact, before CNL runs): |x| <= max(T).
 // Oracle (exact rationals, independent of CNL): the call returns; denominator > 0; the numerator
 // does not have the sign opposite to x; if x in lowest terms n/d has n and d representable in T the
 // result equals x exactly; otherwise floor(x) <= f <= floor(x)+1 and |f-x| < max(1,|x|)*2^(4-D).
 // "Components within range" is not separately observable (they are stored in T): an out-of-range
 // intermediate shows as a UBSan trap or a CNL_ASSERT failure, which are outcomes.
+// Violation keys are <what>/<mag>/<rep>[/<nbr>]: exact predicates on the input, see the comment in prog().
 #include "common.h"
 
 #include <cnl/fraction.h>
@@ -88,7 +91,8 @@ std::vector<F> inputs(int M, int Mu)
             both(F(q + 1) / F(q));
         }
         for (F c : {F(3.14285714285714285714L), F(3.14159265358979323846L), F(2.71828182845904523536L), F(1.41421356237309504880L), F(1.61803398874989484820L), F(0.61803398874989484820L),
-                    F(237.001L), F(237.000001L), F(237.0000000001L), F(1.001001001001001001001L), F(1e-9L), F(1e-15L), F(1e9L), F(1e15L)})
+                    F(237.001L), F(237.000001L), F(237.0000000001L), F(1.001001001001001001001L), F(1e-9L), F(1e-15L), F(1e9L), F(1e15L),
+                    F(0x1.f36p-20L), F(0x1.1ebp-6L)})
             both(c);
     }
     // 5. adjacent to the numerator limit and to 1, 2
@@ -168,7 +172,7 @@ struct Nbr {
 inline Nbr neighbours(Big const& an, Big const& ad, Big const& maxT)
 {
     Nbr s;
-    s.ln = an / ad;
+    s.ln = an.shr_trunc(ad.bit_length() - 1);  // ad is a power of two
     s.ld = Big(1);
     s.rn = s.ln + Big(1);
     s.rd = Big(1);
@@ -178,34 +182,21 @@ inline Nbr neighbours(Big const& an, Big const& ad, Big const& maxT)
         // mediant < a  <=>  mn*ad < an*md
         int c = Big::cmp(mn * ad, an * md);
         if (c == 0) ref::die("neighbours: input is representable");
-        if (c < 0) {
-            // largest k with (ln + k rn)/(ld + k rd) < a: k < (an ld - ln ad)/(rn ad - an rd)
-            Big num = an * s.ld - s.ln * ad, den = s.rn * ad - an * s.rd;
-            Big k = num / den;
-            if ((num % den).is_zero()) k = k - Big(1);
-            Big k1 = (maxT - s.ld) / s.rd;
-            if (k1 < k) k = k1;
-            if (s.rn.sign() > 0) {
-                Big k2 = (maxT - s.ln) / s.rn;
-                if (k2 < k) k = k2;
-            }
-            if (k < Big(1)) ref::die("neighbours: no progress (left)");
-            s.ln = s.ln + k * s.rn;
-            s.ld = s.ld + k * s.rd;
-        } else {
-            Big num = s.rn * ad - an * s.rd, den = an * s.ld - s.ln * ad;
-            Big k = num / den;
-            if ((num % den).is_zero()) k = k - Big(1);
-            Big k1 = (maxT - s.rd) / s.ld;
-            if (k1 < k) k = k1;
-            if (s.ln.sign() > 0) {
-                Big k2 = (maxT - s.rn) / s.ln;
-                if (k2 < k) k = k2;
-            }
-            if (k < Big(1)) ref::die("neighbours: no progress (right)");
-            s.rn = s.rn + k * s.ln;
-            s.rd = s.rd + k * s.ld;
-        }
+        // f = the bound that moves, n = the other one; largest k with f + k n still strictly on f's side of a:
+        // k < (an fd - fn ad) / (nn ad - an nd)   (both differences taken positive)
+        Big& fnu = c < 0 ? s.ln : s.rn;
+        Big& fde = c < 0 ? s.ld : s.rd;
+        Big const& nnu = c < 0 ? s.rn : s.ln;
+        Big const& nde = c < 0 ? s.rd : s.ld;
+        Big num = (an * fde - fnu * ad).abs(), den = (nnu * ad - an * nde).abs();
+        Big k, rem;
+        Big::divmod(num, den, k, rem);
+        if (rem.is_zero()) k = k - Big(1);
+        if (fde + k * nde > maxT) k = (maxT - fde) / nde;
+        if (nnu.sign() > 0 && fnu + k * nnu > maxT) k = (maxT - fnu) / nnu;
+        if (k < Big(1)) ref::die("neighbours: no progress");
+        fnu = fnu + k * nnu;
+        fde = fde + k * nde;
     }
     ref::die("neighbours: did not converge");
 }
@@ -372,7 +363,9 @@ template<class T, class F, Form form>
                        [&] { return detail0() + ", but x is exactly " + xr.str() + " with both components representable"; });
                 continue;
             }
-            Big const fl = xr.floor();
+            // floor(x), x = xn / 2^k: shift (xn >= 0) or -ceil(|xn| / 2^k) (the input is not an integer here)
+            int const k2 = xd.bit_length() - 1;
+            Big const fl = xn.sign() >= 0 ? xn.shr_trunc(k2) : -(xn.abs().shr_trunc(k2) + Big(1));
             if (f < Rat(fl) || f > Rat(fl + Big(1))) {
                 vf::outcome("outside_adjacent_integers");
                 report("value/outside_adjacent_integers/" + region(), id(), [&] { return detail0() + ": not within [" + fl.str() + "," + (fl + Big(1)).str() + "]"; });
@@ -399,12 +392,13 @@ template<class T, class F, Form form>
 template<class T>
 void all_F(Tier t, Tier t_ctor_float)
 {
+    constexpr Tier tq{8, 5};  // make_fraction is what the constructor calls: enumerated on the quick lattice in both tiers
     prog<T, float, CTOR>(t_ctor_float);
     prog<T, double, CTOR>(t);
     prog<T, long double, CTOR>(t);
-    prog<T, float, MAKE>(t);
-    prog<T, double, MAKE>(t);
-    prog<T, long double, MAKE>(t);
+    prog<T, float, MAKE>(tq);
+    prog<T, double, MAKE>(tq);
+    prog<T, long double, MAKE>(tq);
 }
 
 }  // namespace c17
@@ -423,9 +417,14 @@ static void group()
     prog<i64, double, CTAD>(t);
 #elif VF_PART == 2
     all_F<i64>(t, t);
-#else
+#elif VF_PART == 3
     all_F<i128>(t, t);
     prog<i128, long double, CTAD>(t);
+#else
+    // part 4: built without any sanitizer (what a plain release build does), quick lattice in both tiers
+    prog<i32, float, CTAD>(Tier{8, 5});
+    prog<i32, double, CTOR>(Tier{8, 5});
+    prog<i8, float, CTOR>(Tier{8, 5});
 #endif
 }
 VF_GROUP(group);
